@@ -168,6 +168,27 @@ pub fn scenario(family: &str, seed: u64) -> Scenario {
                 if uni_heavy { l.streams_uni = small; l.streams_bidi = big; } else { l.streams_bidi = small; l.streams_uni = big; }
             }
         }
+        // an on-path attacker: forged, garbled, truncated, spliced and replayed datagrams among the genuine ones
+        "attack" => {
+            net.corrupt_copy = pick(rng, &[100u32, 250]);
+            net.dup = pick(rng, &[50u32, 150]);
+            net.truncate = pick(rng, &[20u32, 60]);
+            net.corrupt = pick(rng, &[0u32, 40]);
+            net.drop = pick(rng, &[0u32, 50]);
+            net.hold = pick(rng, &[0u32, 80]);
+            net.skip_first = pick(rng, &[0u64, 0, 8]);
+            net.inject = pick(rng, &[10u32, 40]);
+            net.inject_from_us = pick(rng, &[0u64, 200_000]);
+            net.inject_to_us = 3_000_000;
+            net.heal_at_us = Some(30_000_000);
+            let n = rng.random_range(1..4);
+            sc.streams = streams(rng, n, 60_000);
+            // replay of old genuine datagrams much later
+            for i in 0..12u64 {
+                let dir = if rng.random_bool(0.5) { "c2s" } else { "s2c" };
+                net.schedule.push((dir.to_string(), rng.random_range(0..60) + i, "replay_late".to_string()));
+            }
+        }
         _ => panic!("unknown family {family}"),
     }
     small_chunks_fix(&mut sc.streams);
